@@ -154,6 +154,112 @@ def fmt_main_shape():
             "end JrsVerif.Generated.FmtMainShape\n")
 
 
+# ------------------------------------------------------------------------------------------------
+# Generated/FmtTrivia.lean: which lexeme kinds are trivia at the TWO sites that must agree —
+#   lib.rs   parse():               kinds handed to the parser = lexemes.filter(|k| !P1(k))
+#   event.rs Sink::skip_whitespace: lexemes re-attached while     P2(lexeme.kind)
+# Each predicate is read from its own site and evaluated over the whole SyntaxKind enum
+# (discriminant = position, #[repr(u16)]).  Recognised predicate language:
+#   X::can_cast(e) | matches!(e, A | B ..) | e == A | e != A | !p | p || q | p && q | (p)
+# ------------------------------------------------------------------------------------------------
+RP = "crates/jrsonnet-rowan-parser/src/"
+RKINDS = RP + "generated/syntax_kinds.rs"
+RNODES = RP + "generated/nodes.rs"
+
+
+def _kind_enum():
+    m, w = extract.find(RKINDS, r"#\[repr\(u16\)\]\s*pub enum SyntaxKind \{(.*?)\n\}", re.S)
+    names = []
+    for line in m.group(1).split("\n"):
+        line = line.strip()
+        if not line or line.startswith("#[") or line.startswith("//"):
+            continue
+        mm = re.fullmatch(r"([A-Za-z_][A-Za-z0-9_]*),", line)
+        if not mm:
+            raise ExtractError(f"{w}: unexpected line in enum SyntaxKind: {line!r} (explicit discriminant?)")
+        names.append(mm.group(1))
+    if len(set(names)) != len(names) or any(x not in names for x in ("WHITESPACE", "COMMA", "R_PAREN", "R_BRACK", "R_BRACE")):
+        raise ExtractError(f"{w}: cannot read enum SyntaxKind")
+    return names, w
+
+
+def _can_cast_set(ty, names):
+    """kinds accepted by `<ty as AstToken>::can_cast` (delegating to `<ty>Kind::can_cast`'s match)"""
+    extract.find(RNODES, r"impl AstToken for " + ty + r" \{\s*fn can_cast\(kind: SyntaxKind\) -> bool \{\s*" + ty + r"Kind::can_cast\(kind\)\s*\}")
+    m, w = extract.find(RNODES, r"impl " + ty + r"Kind \{\s*fn can_cast\(kind: SyntaxKind\) -> bool \{\s*match kind \{([^}]*?)=> true,\s*_ => false,\s*\}", re.S)
+    ks = [k.strip() for k in m.group(1).replace("\n", " ").split("|") if k.strip()]
+    for k in ks:
+        if k not in names:
+            raise ExtractError(f"{w}: {ty}Kind::can_cast arm {k!r} is not a SyntaxKind")
+    return {names.index(k) for k in ks}
+
+
+def _pred_set(expr, names, where):
+    """evaluate a kind predicate (Rust expression text) over every SyntaxKind"""
+    idx = {n: i for i, n in enumerate(names)}
+    py = expr
+
+    def cc(m):
+        return "(k in " + repr(sorted(_can_cast_set(m.group(1), names))) + ")"
+
+    def mt(m):
+        ks = [x.strip().replace("SyntaxKind::", "") for x in m.group(1).split("|")]
+        for x in ks:
+            if x not in idx:
+                raise ExtractError(f"{where}: unknown kind {x!r} in {expr!r}")
+        return "(k in " + repr(sorted(idx[x] for x in ks)) + ")"
+
+    def eq(m):
+        x = m.group(2).replace("SyntaxKind::", "")
+        if x not in idx:
+            raise ExtractError(f"{where}: unknown kind {x!r} in {expr!r}")
+        return f"(k {m.group(1)} {idx[x]})"
+
+    py = re.sub(r"\b([A-Z][A-Za-z]*)::can_cast\(\s*[*&]?[a-z_.]+\s*\)", cc, py)
+    py = re.sub(r"matches!\(\s*[*&]?[a-z_.]+\s*,([A-Za-z_:|\s]+)\)", mt, py)
+    py = re.sub(r"[*&]?\b[a-z_][a-z_.]*\s*(==|!=)\s*((?:SyntaxKind::)?[A-Z_]+)", eq, py)
+    py = py.replace("||", " or ").replace("&&", " and ")
+    py = re.sub(r"!(?!=)", " not ", py)
+    if not re.fullmatch(r"[\s()\[\],0-9k]*(?:(?:in|or|and|not|==|!=|k)[\s()\[\],0-9]*)*", py):
+        raise ExtractError(f"{where}: trivia predicate not in the recognised language: {expr!r} -> {py!r}")
+    try:
+        return sorted(k for k in range(len(names)) if eval(py, {"__builtins__": {}}, {"k": k}))
+    except Exception as e:  # noqa: BLE001
+        raise ExtractError(f"{where}: cannot evaluate trivia predicate {expr!r}: {e}")
+
+
+@extract.register("FmtTrivia.lean")
+def fmt_trivia():
+    names, wk = _kind_enum()
+    # site 1: parse() filters the kinds the parser sees
+    m1, w1 = extract.find(RP + "lib.rs", r"let kinds = lexemes\s*\.iter\(\)\s*\.map\(\|l\| l\.kind\)\s*\.filter\(\|k\| (.*?)\)\s*\.collect\(\);", re.S)
+    keep = _pred_set(m1.group(1), names, w1)           # kinds KEPT for the parser
+    parse_trivia = [k for k in range(len(names)) if k not in keep]
+    # site 2: Sink::skip_whitespace re-attaches lexemes while the predicate holds
+    m2, w2 = extract.find(RP + "event.rs", r"fn skip_whitespace\(&mut self\) \{\s*while let Some\(lexeme\) = self\.lexemes\.get\(self\.offset\) \{\s*if (.*?) \{\s*break;\s*\}\s*self\.token\(lexeme\.kind\);\s*\}\s*\}", re.S)
+    stop = _pred_set(m2.group(1), names, w2)           # kinds at which the loop STOPS
+    sink_trivia = [k for k in range(len(names)) if k not in stop]
+    # shape of the rest of parse(): the same `lexemes` go to the parser (filtered) and to the sink (all)
+    extract.find(RP + "lib.rs", r"let lexemes = lex::lex\(input\);")
+    extract.find(RP + "lib.rs", r"let parser = Parser::new\(kinds\);\s*let events = parser\.parse\(\);(?:\s*#\[cfg\(jrsonnet_verif\)\]\s*verif::record\(&events, &lexemes\);)?\s*let sink = Sink::new\(events, &lexemes\);")
+    extract.ITEMS["FmtTrivia.parseSite"] = {"value": [names[k] for k in parse_trivia], "where": w1, "raw": m1.group(1)}
+    extract.ITEMS["FmtTrivia.sinkSite"] = {"value": [names[k] for k in sink_trivia], "where": w2, "raw": m2.group(1)}
+    nm = lambda ks: ", ".join(names[k] for k in ks)
+    out = ["-- GENERATED by extract/ex_c20.py from /repo on every check run. Do not edit.",
+           "namespace JrsVerif.Generated.FmtTrivia", "",
+           f"/-- {wk}: number of `SyntaxKind` variants (discriminant = position) -/",
+           f"def kindCount : Nat := {len(names)}", "",
+           f"/-- {w1}: lexeme kinds `parse()` does NOT hand to the parser: {nm(parse_trivia)} -/",
+           f"def parseSiteTrivia : List Nat := {parse_trivia}", "",
+           f"/-- {w2}: lexeme kinds `Sink::skip_whitespace` re-attaches on its own: {nm(sink_trivia)} -/",
+           f"def sinkSiteTrivia : List Nat := {sink_trivia}", "",
+           f"/-- {wk}: `COMMA` and the closing brackets `R_PAREN`, `R_BRACK`, `R_BRACE` -/",
+           f"def commaKind : Nat := {names.index('COMMA')}",
+           f"def closerKinds : List Nat := {[names.index(x) for x in ('R_PAREN', 'R_BRACK', 'R_BRACE')]}", "",
+           "end JrsVerif.Generated.FmtTrivia"]
+    return "\n".join(out) + "\n"
+
+
 _HEAD = [
     "-- GENERATED by extract/ex_c20.py from /repo on every check run. Do not edit.",
     "namespace JrsVerif.Generated.FmtRange",
